@@ -63,8 +63,9 @@ def render(rng, pad_to=0, pad_where="head"):
 def episodes(ctx, n):
     eps = []
     for i in range(n):
-        kind = i % 5
-        text = render(ctx.rng, pad_to=[0, 0, 4096 + ctx.rng.choice([1, 500, 5000]), 4096, 8192][kind], pad_where=["head", "head", "head", "exact", "exact"][kind])
+        kind = i % 7
+        text = render(ctx.rng, pad_to=[0, 0, 4096 + ctx.rng.choice([1, 500, 5000]), 4096, 8192, 65536, 65536 + ctx.rng.choice([3000, 200000])][kind],
+                      pad_where=["head", "head", "head", "exact", "exact", "exact", "head"][kind])
         path = ctx.path("fid_%d.yaml" % i)
         with open(path, "w", encoding="utf-8") as f:
             f.write(text)
